@@ -449,3 +449,78 @@ Theorem C01_scoped_examples :
   check_scase_with xsem_where true (f1_nodes, sc_ops, sc_expected None) = false.
 Proof. exact scoped_examples. Qed.
 Print Assumptions C01_scoped_examples.
+
+(** * Weighted values (State/StateWExec.v): a node function may compute the WEIGHT of a [WeightedTensor] from its inputs
+
+    Added after a seeded defect was missed: [_select] — the helper of [State.revert(subset)] — selecting only [.value] row by
+    row and keeping the weight of one side for all rows.  The theorems above are generic in the value type and in [sm.mix]
+    (hypothesis [F_mix]); below they are instantiated at the value domain with weighted values, where [mix] = [wwhere] =
+    what [_select] does: [torch.where] on the value AND on the weight. *)
+From Leaspy Require Import State.StateWExec State.StateWExecProofs.
+
+(** [_select] on weighted values: the value and the weight of every row come from the SAME side — the forked one for the
+    rows of the mask (rejected individuals), the current one elsewhere. *)
+Theorem C01_weighted_select_rows :
+  forall m ov ow cv cw rv rw, wwhere m (WWt ov ow) (WWt cv cw) = Some (WWt rv rw) ->
+    length rv = length m /\ length rw = length m /\
+    forall j b, nth_error m j = Some b ->
+      nth_error rv j = (if b then nth_error ov j else nth_error cv j) /\
+      nth_error rw j = (if b then nth_error ow j else nth_error cw j).
+Proof. exact wwhere_rows. Qed.
+Print Assumptions C01_weighted_select_rows.
+
+(** [F_mix] PROVED for the weighted toy vocabulary: graphs whose per-individual derived nodes have one parent and an entry-wise
+    function — one-parent affine / log2, a weighted value whose weight is computed from the parent ([x >= thr]), a map of a
+    weighted value, the weighted value and the weight of a weighted parent. *)
+Theorem C01_F_mix_weighted :
+  forall l : list wspec, wunary_axis_b l = true -> F_mix (mk_wgraph l) wsem_where.
+Proof. exact F_mix_wunary. Qed.
+Print Assumptions C01_F_mix_weighted.
+
+(** Never stale on every such graph (aggregates of weighted values and of weights included), for every history of every
+    operation that meets the documented precondition of partial reverts: the result of a read IS the from-scratch evaluation
+    — values and weights.  No hypothesis on node functions is left; the graph hypothesis is the boolean check run on
+    every graph of the tie. *)
+Theorem C01_never_stale_weighted :
+  forall l : list wspec,
+  wwf_b (mk_wgraph l) = true -> wunary_axis_b l = true ->
+  forall ops, MaskDisciplined (mk_wgraph l) wsem_where (init_store (mk_wgraph l)) ops ->
+  forall k i st,
+    nth_error (fst (run_now (mk_wgraph l) wsem_where (init_store (mk_wgraph l)) ops)) k = Some st ->
+    snd (step_now (mk_wgraph l) wsem_where (fst (run_now (mk_wgraph l) wsem_where (init_store (mk_wgraph l)) ops)) (Get k i)) =
+      match scratch (mk_wgraph l) (values st) i with Some v => Ok v | None => Err InputError end.
+Proof. exact never_stale_weighted. Qed.
+Print Assumptions C01_never_stale_weighted.
+
+(** Non-vacuity and discrimination, on the graph of the seeded defect (x per individual; w = WeightedTensor(x, weight = (x >= 3));
+    v = w.weighted_value; n = w.weight.sum(); s = w.weighted_value.sum()): the history "x = [1,5,2,7]; read v; x += [4,-4,4,-4]
+    (every weight flips); read v; reject individuals 1 and 2" meets the precondition and every read afterwards is fresh (w has the
+    weights [1,1,0,1], n = 3, s = 13).  Under a rule that selects the values but keeps the FORKED weight for all rows the same
+    history reads w with weights [0,1,0,1], n = 2 and s = 8; under the rule that keeps the CURRENT weight, weights [1,0,1,1]:
+    stale.  [F_mix] is false for both rules (the theorems do not speak about such a tree), and the checker of the tie rejects
+    an observation whose weight is the forked one. *)
+Theorem C01_weighted_examples :
+  (WF (mk_wgraph onset_nodes) /\ F_mix (mk_wgraph onset_nodes) wsem_where) /\
+  (MaskDisciplined (mk_wgraph onset_nodes) wsem_where (init_store (mk_wgraph onset_nodes)) onset_ops /\
+   wread_of (mk_wgraph onset_nodes) wsem_where true onset_ops 0 0 = Ok (WPlain (XP [AFin 5; AFin 5; AFin 2; AFin 3]%Z)) /\
+   wread_of (mk_wgraph onset_nodes) wsem_where true onset_ops 0 1 = Ok (WWt [AFin 5; AFin 5; AFin 2; AFin 3]%Z [true; true; false; true]) /\
+   wfresh_of (mk_wgraph onset_nodes) wsem_where true onset_ops 0 1 = Some (Some (WWt [AFin 5; AFin 5; AFin 2; AFin 3]%Z [true; true; false; true])) /\
+   wread_of (mk_wgraph onset_nodes) wsem_where true onset_ops 0 2 = Ok (WPlain (XP [AFin 5; AFin 5; AFin 0; AFin 3]%Z)) /\
+   wread_of (mk_wgraph onset_nodes) wsem_where true onset_ops 0 3 = Ok (WPlain (XS (AFin 3))) /\
+   wfresh_of (mk_wgraph onset_nodes) wsem_where true onset_ops 0 3 = Some (Some (WPlain (XS (AFin 3)))) /\
+   wread_of (mk_wgraph onset_nodes) wsem_where true onset_ops 0 4 = Ok (WPlain (XS (AFin 13))) /\
+   wfresh_of (mk_wgraph onset_nodes) wsem_where true onset_ops 0 4 = Some (Some (WPlain (XS (AFin 13))))) /\
+  (wread_of (mk_wgraph onset_nodes) wsem_old_weight true onset_ops 0 0 = Ok (WPlain (XP [AFin 5; AFin 5; AFin 2; AFin 3]%Z)) /\
+   wread_of (mk_wgraph onset_nodes) wsem_old_weight true onset_ops 0 1 = Ok (WWt [AFin 5; AFin 5; AFin 2; AFin 3]%Z [false; true; false; true]) /\
+   wfresh_of (mk_wgraph onset_nodes) wsem_old_weight true onset_ops 0 1 = Some (Some (WWt [AFin 5; AFin 5; AFin 2; AFin 3]%Z [true; true; false; true])) /\
+   wread_of (mk_wgraph onset_nodes) wsem_old_weight true onset_ops 0 3 = Ok (WPlain (XS (AFin 2))) /\
+   wread_of (mk_wgraph onset_nodes) wsem_old_weight true onset_ops 0 4 = Ok (WPlain (XS (AFin 8))) /\
+   wfresh_of (mk_wgraph onset_nodes) wsem_old_weight true onset_ops 0 4 = Some (Some (WPlain (XS (AFin 13))))) /\
+  (wread_of (mk_wgraph onset_nodes) wsem_new_weight true onset_ops 0 1 = Ok (WWt [AFin 5; AFin 5; AFin 2; AFin 3]%Z [true; false; true; true]) /\
+   wfresh_of (mk_wgraph onset_nodes) wsem_new_weight true onset_ops 0 1 = Some (Some (WWt [AFin 5; AFin 5; AFin 2; AFin 3]%Z [true; true; false; true]))) /\
+  ~ F_mix (mk_wgraph onset_nodes) wsem_old_weight /\ ~ F_mix (mk_wgraph onset_nodes) wsem_new_weight.
+Proof.
+  split; [split; [exact onset_wf | exact onset_fmix]|]. split; [exact onset_now|]. split; [exact onset_old_weight_stale|].
+  split; [exact onset_new_weight_stale|]. split; [exact F_mix_fails_old_weight | exact F_mix_fails_new_weight].
+Qed.
+Print Assumptions C01_weighted_examples.
